@@ -119,6 +119,7 @@ func stubTable() map[string]stubFn {
 	}
 	m["strings.ToLower"] = s1s(strings.ToLower)
 	m["strings.ToUpper"] = s1s(strings.ToUpper)
+	m["strings.Title"] = s1s(strings.Title) //nolint
 	m["strings.TrimSpace"] = s1s(strings.TrimSpace)
 	m["strings.Repeat"] = func(in *Interp, fr *frame, args []Value) Value {
 		return strings.Repeat(mustStr(fr, args[0], "Repeat"), argInt(args[1]))
